@@ -258,6 +258,21 @@ def splitSourceType (t : TypeId) : J → TypeId
   | .obj _ => if t.mapDim = 0 then ⟨t.base, 0, t.arrayDim + 1⟩ else t
   | _ => t
 
+/-- The operand of a split argument (`convertToExp(split = true)` after the
+`{"split": v}` wrapper is removed).  A map operand of a parameter whose own
+type is a typed map (or an array of typed maps) would be a map of maps, for
+which there is no `TypeId`: every value is converted at the parameter's type
+and the outer literal stays a map (repair of finding C16-N7; before it the
+operand was converted at the parameter's type `t` itself, which typed the
+per-key values one level too deep).  In all other cases the operand is
+converted at `splitSourceType`. -/
+def convertSplit (t : TypeId) (v : J) : Option Exp :=
+  match v with
+  | .obj kvs =>
+    if t.mapDim = 0 then convert (splitSourceType t v) v
+    else (ofJKvs kvs).map fun es => .map false (fixVals t.base t.arrayDim t.mapDim es)
+  | _ => convert (splitSourceType t v) v
+
 /-- One binding of `BuildCallAst`: an argument listed in `splitargs` must be
 `{"split": v}`; `v` is converted at the collection type over the parameter's
 type and the result is a `SplitExp` (`convertToExp` returns a bare `NullExp`
@@ -267,7 +282,7 @@ def buildBinding (split : Bool) (t : TypeId) (j : J) : Option Arg :=
     match j with
     | .obj kvs =>
       match kvs.find splitKey with
-      | some v => (convert (splitSourceType t v) v).map .split
+      | some v => (convertSplit t v).map .split
       | none => none
     | _ => none
   else (convert t j).map .plain
@@ -502,6 +517,44 @@ def collectionType (t : TypeId) : Exp → TypeId
   | .arr _ => ⟨t.base, t.arrayDim + 1, t.mapDim⟩
   | .map _ _ => if t.mapDim = 0 then ⟨t.base, 0, t.arrayDim + 1⟩ else t
   | .lit _ => t
+
+/-- What the compiler accepts as the operand of `x = split e` for a parameter
+of type `t` (shape and struct-vs-map flags): an array of `t`-values, a map
+literal whose every value is a `t`-value – also when `t` is itself a typed map,
+where `collectionType` has no `TypeId` to offer –, or `null` (a scalar
+literal is treated as `collectionType` does). -/
+def splitOperandOk (t : TypeId) : Exp → Bool
+  | .arr xs => wtList t.base t.arrayDim t.mapDim xs
+  | .map k kvs => !k && wtVals t.base t.arrayDim t.mapDim kvs
+  | .lit l => wt t.base t.arrayDim t.mapDim (.lit l)
+
+/-! ## references and aliases (outside the round trip)
+
+A reference (`STAGE.out`, `self.x`) in an argument of a top-level call is
+rejected by the compiler ("this binding cannot be resolved outside of a stage
+or pipeline"); the unchecked parser accepts it and `RefExp.MarshalJSON` writes
+`{"__reference__": "ID.out"}`, which nothing reads back: `convertToExp` turns
+it into a map literal.  `call X as Y`: `BuildDataForAst` records `DecId` (`X`);
+the alias `Y` is not part of invocation data. -/
+def refKey : Str :=
+  [0x5F, 0x5F, 0x72, 0x65, 0x66, 0x65, 0x72, 0x65, 0x6E, 0x63, 0x65, 0x5F, 0x5F]  -- "__reference__"
+
+/-- `RefExp.MarshalJSON` without fork indices -/
+def encodeRef (id : Str) : J := .obj (.cons refKey (.lit (.str id)) .nil)
+
+/-- the part of `CallStm` that matters: `Id` (the alias, or the callable's
+name), `DecId` (the callable), bindings -/
+structure Call where
+  id : Str
+  decId : Str
+  bindings : List (Str × Arg)
+
+/-- `BuildDataForAst`: `Call: ast.Call.DecId` -/
+def dataOfCall (c : Call) : Str × Data := (c.decId, dataOf c.bindings)
+
+/-- `BuildCallAst(name, …)`: `Id: name, DecId: callable.GetId()` with
+`name = invocation.Call` = the callable's name -/
+def callOfData (name : Str) (bs : List (Str × Arg)) : Call := ⟨name, name, bs⟩
 
 /-! ## what the MRO grammar can express
 
